@@ -68,7 +68,7 @@ fn lit(s: &str) -> String {
 impl Prop for C07 {
     fn cases(&self, tier: Tier) -> u64 {
         match tier {
-            Tier::Quick => 600_000,
+            Tier::Quick => 2_000_000,
             Tier::Thorough => 5_000_000,
         }
     }
